@@ -134,15 +134,15 @@ Proof. unfold area. rewrite sumK_Rsum, tria_areas_are_cross_areas, Rsum_map. ref
 Theorem tria_normal_unit_orthogonal v i j k :
   let '(p0, p1, p2) := tri_pts Rops v (i, j, k) in
   let n := crossR (subR p1 p0) (subR p2 p0) in
-  Rltb (norm Rops n) (eps52 Rops) = false ->
+  0 < norm Rops n ->
   dotR (tria_normal Rops v (i, j, k)) (tria_normal Rops v (i, j, k)) = 1 /\
   dotR (tria_normal Rops v (i, j, k)) (subR p1 p0) = 0 /\
   dotR (tria_normal Rops v (i, j, k)) (subR p2 p0) = 0 /\
   0 < dotR (tria_normal Rops v (i, j, k)) n.
 Proof.
   unfold tria_normal, tri_pts. generalize (getv Rops v i) (getv Rops v j) (getv Rops v k). intros p0 p1 p2.
-  cbv zeta. intros Hg. unfold guard_len. cbn [ltb one Rops]. rewrite Hg.
-  apply Rltb_false in Hg. assert (E := eps52_pos).
+  cbv zeta. intros Hg. unfold guard_zero_len. cbn [eqb zero one Rops].
+  destruct (Reqb (norm Rops (crossR (subR p1 p0) (subR p2 p0))) 0) eqn:Eg; [apply Reqb_true in Eg; lra|]. clear Eg.
   set (n := crossR (subR p1 p0) (subR p2 p0)) in *.
   unfold norm, norm2 in *. cbn [sqrtK Rops] in *.
   assert (HN : 0 <= dotR n n) by apply dot_self_nonneg.
